@@ -356,6 +356,25 @@ def sweeps_and_guard(index, ctx):
         good = implies(cfg_guards(cfg, d), classify, "S", True)
         ctx.require(good or not via_vmap, "R3", f"{G.short}: single-row blocks are differentiated directly", "direct call on the positive edge of `rows == 1`",
                     "the direct (vmap-free) application is not the branch taken when the block has one row", G.loc(d.ast))
+    # `block[0]` keeps the first row only: equivalent to squeeze(0) exactly when the block has one row
+    elems = {blocks_param}
+    for n_ in ast.walk(G.node):
+        if isinstance(n_, ast.comprehension) and isinstance(n_.iter, ast.Name) and n_.iter.id == blocks_param and isinstance(n_.target, ast.Name):
+            elems.add(n_.target.id)
+        if isinstance(n_, ast.For) and isinstance(n_.iter, ast.Name) and n_.iter.id == blocks_param and isinstance(n_.target, ast.Name):
+            elems.add(n_.target.id)
+    for nd in cfg.stmt_nodes():
+        for e in own_exprs(nd):
+            for x in ast.walk(e):
+                if isinstance(x, ast.Subscript) and isinstance(x.slice, ast.Constant) and isinstance(x.slice.value, int) and not isinstance(x.slice.value, bool):
+                    base = x.value
+                    is_elem = (isinstance(base, ast.Name) and base.id in elems - {blocks_param}) or \
+                              (isinstance(base, ast.Subscript) and isinstance(base.value, ast.Name) and base.value.id == blocks_param)
+                    in_shape = any(isinstance(p_, ast.Attribute) and p_.attr in ("shape",) and p_.value is x for p_ in ast.walk(e))
+                    if is_elem and not in_shape:
+                        ok = implies(cfg_guards(cfg, nd), classify, "S", True)
+                        ctx.require(ok, "R3", f"{G.short}: `{norm_text(x)}` selects a single row of a block", "only where the block has exactly one row",
+                                    f"`{norm_text(x)}` drops every row but the first of a cotangent block and is not confined to the branch where the block has one row", G.loc(x))
     ctx.floor("vmap call sites", len(via_vmap), 1)
 
 
